@@ -105,6 +105,11 @@ func genC10Q(t *rapid.T, w *kit.World) c10Q {
 		eid, _ := kit.MapFor(w.Maps(), '8', q.QName)
 		ec := kit.GenLPMClient(t, subnetsOfMap(w, eid), true)
 		q.Client.ECS = &kit.ECS{Family: uint16(ec.Family), Source: uint8(ec.Len), Addr: ec.Addr}
+		if ec.Family == 1 && ec.Len == 32 && rapid.IntRange(0, 5).Draw(t, "mapped") == 0 {
+			// the same IPv4 host sent as an IPv4-mapped IPv6 client subnet (family 2, /128):
+			// the scope is then expressed in IPv6 terms
+			q.Client.ECS = &kit.ECS{Family: 2, Source: 128, Addr: "::ffff:" + ec.Addr}
+		}
 	}
 	return q
 }
